@@ -237,7 +237,85 @@ fn history(start: &str, nops: usize, rng: &mut Rng, rep: &mut Report, batch: &mu
     batch.push(case);
 }
 
+/// The cache PROTOCOL, exhaustively over (one cache-touching query) x (one kind of edit): build a fresh object, issue exactly
+/// ONE query that leaves something behind (so the caches are only partially filled), edit the tree, call the documented reset,
+/// and ask everything — the answers must be those of a tree freshly parsed from the current text.  (Random histories issue
+/// whole batteries before every edit and therefore never visit the states "leaf index filled, split map empty" etc.)
+fn protocol_matrix(rng: &mut Rng, rep: &mut Report) {
+    type Q = (&'static str, fn(&Tree));
+    let warmers: [Q; 13] = [
+        ("distance_matrix", |t| { let _ = t.distance_matrix(); }),
+        ("distance_matrix_recursive", |t| { let _ = t.distance_matrix_recursive(); }),
+        ("get_partitions", |t| { let _ = t.get_partitions(); }),
+        ("robinson_foulds", |t| { let _ = t.robinson_foulds(&t.clone()); }),
+        ("robinson_foulds_norm", |t| { let _ = t.robinson_foulds_norm(&t.clone()); }),
+        ("weighted_robinson_foulds", |t| { let _ = t.weighted_robinson_foulds(&t.clone()); }),
+        ("khuner_felsenstein", |t| { let _ = t.khuner_felsenstein(&t.clone()); }),
+        ("compare_topologies", |t| { let _ = t.compare_topologies(&t.clone()); }),
+        ("compare_branch_lengths", |t| { let _ = t.compare_branch_lengths(&t.clone(), true); }),
+        ("to_nexus", |t| { let _ = t.to_nexus(); }),
+        ("to_newick", |t| { let _ = t.to_newick(); }),
+        ("height+diameter", |t| { let _ = t.height(); let _ = t.diameter(); }),
+        ("colless+sackin", |t| { let _ = t.colless(); let _ = t.sackin(); }),
+    ];
+    let edits = ["prune-leaf", "add-leaf", "rename-leaf", "rescale", "merge-siblings", "compress", "rename-then-prune"];
+    for round in 0..2 {
+        let size = rng.range(5, 12);
+        let mut t = random_shape(rng, size);
+        label(rng, &mut t, &LabelOpts { len_mode: LenMode::All, ..Default::default() });
+        t.len = None;
+        for (wname, w) in warmers.iter() {
+            for edit in edits.iter() {
+                let mut tree = if round == 0 { build_api(&t) } else { build_bottom_up(&t, &mut Rng::new(7)) };
+                w(&tree);
+                let slots = slots_of(&tree);
+                let tips: Vec<usize> = (0..slots.len()).filter(|&i| !slots[i].deleted && slots[i].children.is_empty() && slots[i].parent.is_some()).collect();
+                let inner: Vec<usize> = (0..slots.len()).filter(|&i| !slots[i].deleted && slots[i].children.len() >= 2).collect();
+                if tips.len() < 3 {
+                    continue;
+                }
+                let tip = *rng.pick(&tips);
+                let mut done = String::new();
+                match *edit {
+                    "prune-leaf" => { let _ = tree.prune(&tip); done = format!("prune({tip})"); }
+                    "add-leaf" => { let p = *rng.pick(&inner); let _ = tree.add_child(phylotree::tree::Node::new_named("NEWLEAF"), p, Some(1.5)); done = format!("add_child(NEWLEAF, {p}, 1.5)"); }
+                    "rename-leaf" => { if let Ok(n) = tree.get_mut(&tip) { n.set_name("0RENAMED".into()); } done = format!("get_mut({tip}).set_name(0RENAMED)"); }
+                    "rescale" => { tree.rescale(2.0); done = "rescale(2)".into(); }
+                    "merge-siblings" => { let p = *rng.pick(&inner); let ch = slots[p].children.clone(); let _ = tree.merge_children(&ch[0], &ch[1], Some(0.5), Some(0.25), Some(1.0), Some("MERGED".into())); done = format!("merge_children({}, {})", ch[0], ch[1]); }
+                    "compress" => { let _ = tree.prune(&tip); let _ = tree.compress(); done = format!("prune({tip}); compress()"); }
+                    _ => { if let Ok(n) = tree.get_mut(&tip) { n.set_name("zzRENAMED".into()); } let other = *tips.iter().find(|x| **x != tip).unwrap(); let _ = tree.prune(&other); done = format!("get_mut({tip}).set_name(zzRENAMED); prune({other})"); }
+                }
+                tree.reset_bipartition_cache();
+                let ctx = format!("real.build\t{}\t{}\t7\n# one query on the fresh object: {wname}\n# edit: {done}\nreal.reset_cache", if round == 0 { "api" } else { "bottomup" }, t.canon());
+                rep.case(&ctx, true);
+                rep.count("protocol_matrix_cells");
+                let names = tree.get_leaf_names();
+                let uniq = names.iter().all(|n| n.is_some()) && { let mut v: Vec<_> = names.iter().flatten().collect(); v.sort(); v.dedup(); v.len() == names.len() };
+                if !uniq {
+                    continue;
+                }
+                let Some(fresh) = tree.to_newick().ok().and_then(|x| Tree::from_newick(&x).ok()) else {
+                    rep.oracle("fresh-parse", "protocol:reparse-failed", &ctx, "");
+                    continue;
+                };
+                let t2 = tree.clone();
+                let b_edit = match guarded(std::panic::AssertUnwindSafe(|| battery(&t2, &[20, 21, 3]))) { Ok(b) => b, Err(_) => { rep.oracle("no-panic", "protocol:battery", &ctx, "panic"); continue; } };
+                let b_fresh = battery(&fresh, &[]);
+                if let Some((q, a, b)) = diff(&b_edit, &b_fresh) {
+                    rep.oracle("fresh-parse", &format!("protocol:{q}"), &format!("{ctx}\nbattery\t{q}"), &format!("edited: {a}\nfresh : {b}"));
+                }
+            }
+        }
+    }
+}
+
 pub fn run(thorough: bool, seed: u64, driver: &str, rep: &mut Report) {
+    {
+        let mut r0 = Rng::new(seed ^ 0xc04);
+        for _ in 0..(if thorough { 20 } else { 2 }) {
+            protocol_matrix(&mut r0, rep);
+        }
+    }
     let mut rng = Rng::new(seed);
     let jobs: Vec<u64> = (0..(if thorough { 320 } else { 32 })).map(|_| rng.next()).collect();
     let d = driver.to_string();
@@ -254,7 +332,7 @@ pub fn run(thorough: bool, seed: u64, driver: &str, rep: &mut Report) {
                 let mut t = random_shape(&mut rng, size);
                 let mode = *rng.pick(&[LenMode::All, LenMode::All, LenMode::Mixed, LenMode::None]);
                 let rl = rng.chance(1, 3); label(&mut rng, &mut t, &LabelOpts { len_mode: mode, comments_pct: 10, root_len: rl, ..Default::default() });
-                let how = *rng.pick(&["api", "bfs", "tomb", "parse", "merge2", "grown"]);
+                let how = *rng.pick(&["api", "bfs", "tomb", "parse", "merge2", "grown", "bottomup"]);
                 if how == "merge2" {
                     while t.kids.len() > 2 {
                         t.kids.pop();
